@@ -3,6 +3,7 @@
         <cfg>     "gen" (configuration extracted from the current ev.c) or five 0/1 digits
                   pushBlocksStrict choiceReadyStrict choiceGiveSeesReader popSkipsStaleWriter closeChecksSched
         <limits>  comma separated channel capacities, "-" for none;  <rng> comma separated u32 stream, "-" for none
+        a fiber's list may begin with S<c>: the fiber is spawned by (ev/go f nil c<c>) - channel c is its supervisor
         ops       g<c>:<x> give | t<c> take | c<c> close | y[<ms>] (ev/sleep ms/1000) | x<g> (ev/cancel g) |
                   d<ms>:<n> (ev/with-deadline ms/1000 <next n ops>) | s:<cl>,<cl>.. select | r:<cl>,.. rselect
                   clause  t<c> | g<c>:<x>
@@ -58,8 +59,9 @@ def splitFibers (toks : List String) : List (List String) :=
 def parseCfg (s : String) : Option Cfg :=
   if s = "gen" then some currentCfg
   else match s.toList.map (· == '1') with
-    | [a, b, c, d, e, r] => some ⟨a, b, c, d, e, r⟩
-    | [a, b, c, d, e] => some ⟨a, b, c, d, e, false⟩
+    | [a, b, c, d, e, r, u] => some ⟨a, b, c, d, e, r, u⟩
+    | [a, b, c, d, e, r] => some ⟨a, b, c, d, e, r, false⟩
+    | [a, b, c, d, e] => some ⟨a, b, c, d, e, false, false⟩
     | _ => none
 
 def showQ (rc : Nat) (popped : Int) (q : RingQ Nat) : String :=
@@ -91,10 +93,19 @@ def stepLine (_ : Unit) (toks : List String) : Unit × String :=
     match parseCfg cfg with
     | none => ((), "bad-cfg")
     | some cfg =>
-      let fibs := (splitFibers rest).map (fun ts => ts.filterMap parseOp)
-      let nbad : Nat := ((splitFibers rest).map (fun ts => (ts.filter (fun t => (parseOp t).isNone)).length)).foldl (· + ·) 0
+      -- a fiber's list may begin with `S<c>`: it is spawned with channel c as its supervisor
+      let supOf (ts : List String) : Option Nat :=
+        match ts with
+        | t :: _ => match t.toList with
+          | 'S' :: r => (String.ofList r).toNat?
+          | _ => none
+        | [] => none
+      let strip (ts : List String) : List String := if (supOf ts).isSome then ts.drop 1 else ts
+      let segs := splitFibers rest
+      let fibs := segs.map (fun ts => (strip ts).filterMap parseOp)
+      let nbad : Nat := (segs.map (fun ts => ((strip ts).filter (fun t => (parseOp t).isNone)).length)).foldl (· + ·) 0
       if nbad > 0 then ((), "bad-op")
-      else ((), Prog.render cfg { limits := parseNats limits, fibers := fibs, rng := parseNats rng,
+      else ((), Prog.render cfg { limits := parseNats limits, fibers := fibs, rng := parseNats rng, sups := segs.map supOf,
                                    clockStart := 100000, clockStep := 16 })
   | "Q" :: ops => ((), runQ ops)
   | _ => ((), "bad-op")
